@@ -120,3 +120,58 @@ func VerifC15Restart() {
 	zzverif.Assert(err == nil && g.Kv != nil && g.Kv.Revision == up.Header.Revision, "the new leader's write is readable")
 	zzverif.Cover("done")
 }
+
+// VerifC15Gate: while a node takes over (after a fail-over, or restarted under the identity the
+// lock record still names), a client write arrives at any moment. Write handlers serve it only
+// when the node says it is leader; whenever it does, the revision it hands out must already be
+// above everything stored: the guarded update of an existing key succeeds with a larger revision.
+// Every interleaving of the election pass and the client within the delay bound.
+func VerifC15Gate() {
+	s := zzmodel.NewStore()
+	elapsed := uint64(0)
+	s.ClockFn = func() uint64 { return 1000 + elapsed }
+	ctx := context.Background()
+	old, oldLE := newNode(s, "old")
+	go oldLE.Campaign()
+	zzverif.WaitIdle()
+	zzverif.Assert(oldLE.IsLeader(), "first node becomes leader")
+	key := []byte("/r/a")
+	elapsed += 5
+	cr, err := old.Create(ctx, &proto.CreateRequest{Key: key, Value: []byte("v")})
+	zzverif.Assert(err == nil && cr.Succeeded, "old leader: create")
+	stored := cr.Header.Revision
+	zzverif.WaitIdle()
+	// the old leader stops; the next leader is another node, or the same node restarted
+	id := "new"
+	if zzverif.Choose("restartedSameIdentity", 2) == 1 {
+		id = "old"
+		zzverif.Cover("restart-same-identity")
+	}
+	nb, newLE := newNode(s, id)
+	elapsed += 1
+	s.Yield = zzverif.YieldAt
+	done := make(chan struct{}, 2)
+	zzverif.ExploreSchedules(zzverif.Param("preempt", 2))
+	zzverif.Go("campaign", func() {
+		newLE.Campaign()
+		done <- struct{}{}
+	})
+	zzverif.Go("client", func() {
+		if newLE.IsLeader() { // the gate of every write handler
+			up, err := nb.Update(ctx, &proto.UpdateRequest{Kv: &proto.KeyValue{Key: key, Value: []byte("w"), Revision: stored}})
+			zzverif.Assert(err == nil, "a node that says it is leader does not reject a guarded update for revision drift")
+			zzverif.Assert(up.Succeeded && up.Header.Revision > stored, "a node that says it is leader hands out revisions above everything stored")
+			zzverif.Cover("client-served-by-new-leader")
+		} else {
+			zzverif.Cover("client-turned-away")
+		}
+		done <- struct{}{}
+	})
+	<-done
+	<-done
+	zzverif.StopExploring()
+	s.Yield = nil
+	zzverif.WaitIdle()
+	zzverif.Assert(newLE.IsLeader(), "second node becomes leader")
+	zzverif.Cover("done")
+}
